@@ -140,6 +140,7 @@ type Sim struct {
 	asyncName string
 	tainted  map[string]bool
 	lastMtime map[string]time.Time
+	earliest map[string]time.Time
 	pollMismatch map[string]bool
 	actions  int    // externally visible sender actions so far (all generations)
 	crashAt  int    // crash the sender when actions reaches this (0: never)
